@@ -203,6 +203,17 @@ def prepare_stub_world(wd, values=None, cap=60000):
     wd.stub_max_level_seen = 0
 
 
+class InjectedPathFailure(RuntimeError):
+    """fault: the simulation of one path fails in the middle of a run (a run interrupted at an arbitrary sample)"""
+
+
+def _maybe_fail(wd, serial):
+    if getattr(wd, "stub_fail_at", None) is not None and serial == wd.stub_fail_at:
+        wd.stub_fail_at = None  # once
+        wd.faults["run.path_simulation_failed"] += 1
+        raise InjectedPathFailure(f"injected: simulation of sample {serial} failed")
+
+
 class ScriptedPathProcess:
     """standard-engine process handing out explicit multi-point paths (world list ``stub_paths``): sample i has
     diffusion component ``stub_paths[i][0]`` and pure-jump component ``stub_paths[i][1]`` on the process's times"""
@@ -239,6 +250,7 @@ class ScriptedPathProcess:
         wd = _world()
         serial = wd.stub_serial
         wd.stub_serial += 1
+        _maybe_fail(wd, serial)
         if serial >= len(wd.stub_paths):
             raise HarnessError("scripted path process exhausted")
         entry = wd.stub_paths[serial]
@@ -296,6 +308,7 @@ class ScriptedPathCoupling:
         wd = _world()
         serial = wd.stub_serial
         wd.stub_serial += 1
+        _maybe_fail(wd, serial)
         if serial >= len(wd.stub_paths):
             raise HarnessError("scripted path coupling exhausted")
         return serial, wd.stub_paths[serial]
